@@ -70,3 +70,15 @@ contract(F + "SingleListGrader.process_grade_list", props=["C07", "C01"],
              "implies(AWARDED and msg != '', result['msg'].endswith(msg))",
              "same(result['individual'], grade_list)"],
     modifies=[], lemmas=['sum_ext', 'sum_pad'])
+
+
+# ---------------------------------------------------------------------------------------------- ListGrader (C05, C01)
+contract(F + "ListGrader.validate_submission", props=["C05", "C01"],
+    requires=["has_attr(self, 'config') and is_dict(self.config) and has_keys(self.config, 'grouping')",
+              "is_none(self.config['grouping']) or is_list(self.config['grouping'])",
+              "is_seq(answers)", "is_list(student_list)"],
+    ghost={'EXPECTED': "len(self.config['grouping']) if (is_list(self.config['grouping']) and len(self.config['grouping']) > 0) else len(answers)"},
+    # one result per submitted input: a submission whose size differs from what the configuration expects is refused, never graded
+    exsures={"ConfigError": "EXPECTED != len(student_list)"},
+    ensures=["EXPECTED == len(student_list)", "is_none(result)"],
+    modifies=[])
